@@ -950,8 +950,9 @@ def mail_features(kinds):
 PDF_LAYOUTS = ("own", "form", "form-shared-stream", "encoding")
 
 
-def pdf_text_doc(n_pages, unreadable=(), layout="own"):
+def pdf_text_doc(n_pages, unreadable=(), layout="own", blank=()):
     """n pages with one text token each; pages listed in `unreadable` get a content stream pypdf cannot decode.
+    pages listed in `blank` have no content at all (scanned sheets without a text layer, separator pages).
     layout: what a page shows is its content stream RESOLVED AGAINST ITS OWN /Resources --
       "own"                 every page has its own content stream with the text in it;
       "form"                every page's content stream is the same wrapper bytes (`q /Fx0 Do Q`, the output of imposition / stamping /
@@ -965,6 +966,8 @@ def pdf_text_doc(n_pages, unreadable=(), layout="own"):
     shared = None
     for i in range(n_pages):
         p = w.add_blank_page(width=200, height=200)
+        if i in blank:
+            continue
         s = StreamObject()
         res = DictionaryObject({NameObject("/Font"): DictionaryObject({NameObject("/F1"): w._add_object(mkfont())})})
         if i in unreadable:
@@ -1000,25 +1003,28 @@ def pdf_text_doc(n_pages, unreadable=(), layout="own"):
     return buf.getvalue()
 
 
-def check_pdf_text(n_pages, unreadable=(), layout="own"):
+def check_pdf_text(n_pages, unreadable=(), layout="own", blank=()):
     """A document is either refused as a whole or every page is a unit at its own position (a page that cannot be read must not
     make the later pages move up)."""
     from sharepoint2text.parsing.extractors.pdf.pdf_extractor import read_pdf
     try:
-        c = next(read_pdf(io.BytesIO(pdf_text_doc(n_pages, tuple(unreadable), layout))))
+        c = next(read_pdf(io.BytesIO(pdf_text_doc(n_pages, tuple(unreadable), layout, tuple(blank)))))
     except Exception as e:  # noqa  -- refusing the document is allowed (failure surface is C01's)
         if unreadable:
             return None
-        return {"target": "pdf_extractor.py::read_pdf", "inputs": {"check": "pdf_text", "pages": n_pages, "unreadable": list(unreadable), "layout": layout},
+        return {"target": "pdf_extractor.py::read_pdf", "inputs": {"check": "pdf_text", "pages": n_pages, "unreadable": list(unreadable), "layout": layout, "blank": list(blank)},
                 "expected": "a well-formed PDF is extracted", "observed": f"{type(e).__name__}: {e}"[:200], "check": "pdf_text"}
     obs = observe(c)
-    want = {f"tok{i}": i + 1 for i in range(n_pages) if i not in unreadable}
+    want = {f"tok{i}": i + 1 for i in range(n_pages) if i not in unreadable and i not in blank}
     why = None if [n for n, _t in obs] == list(range(1, n_pages + 1)) else f"{n_pages} pages but unit numbers {[n for n, _t in obs]}"
     why = why or token_coverage(obs, want, "page text")
+    if why is None:
+        full = [n for n, t in obs if n - 1 in blank and t.strip()]
+        why = f"page(s) {full} have no content but their units have text" if full else None
     if why is None and c.get_full_text() != spec_fulltext(obs):
         why = "full text differs from the joined unit texts"
     if why:
-        return {"target": "pdf_extractor.py::read_pdf", "inputs": {"check": "pdf_text", "pages": n_pages, "unreadable": list(unreadable), "layout": layout},
+        return {"target": "pdf_extractor.py::read_pdf", "inputs": {"check": "pdf_text", "pages": n_pages, "unreadable": list(unreadable), "layout": layout, "blank": list(blank)},
                 "expected": "one unit per page, numbered by page position, each holding that page's text (or the document is refused)",
                 "observed": f"{why}; units={obs!r}", "check": "pdf_text"}
     return None
@@ -1034,6 +1040,12 @@ def sweep_pdf_text():
                 r = check_pdf_text(n, bad)
                 if r:
                     return r
+    for n in (2, 3):                     # pages without content among pages with text
+        for k in range(1, n):
+            for bl in itertools.combinations(range(n), k):
+                r = check_pdf_text(n, (), "own", bl)
+                if r:
+                    return r
     for layout in PDF_LAYOUTS[1:]:       # pages whose content bytes are identical: what they show comes from their own /Resources
         for n, bad in ((3, ()), (2, ()), (3, (1,)), (3, (0,))):
             r = check_pdf_text(n, bad, layout)
@@ -1042,7 +1054,7 @@ def sweep_pdf_text():
     return None
 
 
-MBOX_IDS = ("unique", "none", "same", "empty", "first-only")
+MBOX_IDS = ("unique", "none", "same", "empty", "first-only", "identical")     # identical: every header line is the same (a message stored twice)
 
 
 def _mbox_id_line(mode, i):
@@ -1062,9 +1074,11 @@ def mbox_doc(bodies, pad="\n\n", eol="\n", header_only=(), ids="unique"):
     boundary); `pad` is what the writer puts after a body (a blank line, only the line end, nothing more), `eol` the
     line ending; messages listed in header_only have no body at all (they end with their last header line)."""
     out = ""
-    for i, b in enumerate(bodies):
+    for j, b in enumerate(bodies):
+        i = 0 if ids == "identical" else j
         out += f"From s{i}@x.org Mon Jan  1 00:00:0{i} 2024\nFrom: s{i}@x.org\nTo: r@x.org\nSubject: m{i}\n" \
                f"Date: Mon, 1 Jan 2024 00:00:0{i} +0000\n" + _mbox_id_line(ids, i)
+        i = j
         if i in header_only:
             continue
         out += f"\n{b}{pad}"
@@ -1080,7 +1094,7 @@ def check_mbox(bodies, pad="\n\n", eol="\n", header_only=(), loose=False, ids="u
     subj = [m.subject for m in res]
     per = [observe(m) for m in res]
     want = [("" if i in header_only else b.replace("\n", eol).strip()) for i, b in enumerate(bodies)]
-    ok = subj == [f"m{i}" for i in range(len(bodies))] \
+    ok = subj == [f"m{0 if ids == 'identical' else i}" for i in range(len(bodies))] \
         and all(len(o) == 1 and o[0][0] == 1 and _same_body(o[0][1].replace("\r\n", "\n"), w.replace("\r\n", "\n"), loose) for o, w in zip(per, want)) \
         and all(m.get_full_text() == spec_fulltext(o) for m, o in zip(res, per))
     if not ok:
@@ -1431,7 +1445,7 @@ def rerun(stored):
     elif chk == "mail_parts":
         r = check_mail_parts(inp["format"], inp["inline_parts"], inp.get("subtype", "mixed"))
     elif chk == "pdf_text":
-        r = check_pdf_text(inp["pages"], inp.get("unreadable", ()), inp.get("layout", "own"))
+        r = check_pdf_text(inp["pages"], inp.get("unreadable", ()), inp.get("layout", "own"), inp.get("blank", ()))
     elif chk == "sheets":
         r = check_sheets(inp["format"], inp["sheet_kinds"])
     elif chk == "sections":
